@@ -49,6 +49,7 @@ func restartSpecRename(raw string) string {
 func runC02(c *Ctx) {
 	p := c.P
 	s := p.Selectors()
+	s.checkExitCodeProvenance(c, "exitcode-provenance")
 	requireN("RestartDecision", s.RestartDecs, 1, 1)
 	requireN("RunEntry", s.RunEntries, 1, 1)
 	dec := s.RestartDecs[0]
